@@ -40,6 +40,8 @@ Want(i) ==
       \* adding a type that an earlier call already added adds nothing: no record is required then
       [] o.op = "add_type"   -> IF Before(i, "add_type") > 0 THEN [kind |-> "none"]
                                 ELSE [kind |-> "type", content |-> "params=[I64] results=[]"]
+      \* a type the parsed module already had: nothing was added, nothing is to be reported
+      [] o.op = "add_type_parsed" -> [kind |-> "none"]
       [] o.op = "build"      -> [kind |-> "func", content |-> "id=" \o ToString(FinalBuilt(i)) \o " name=None sig=([I32], []) locals=[I64] body=[Nop, End]"]
       [] o.op = "probe" /\ o.mode \in {"before", "after", "alternate"} ->
             [kind |-> "probe", fid |-> FinalF(o.f), idx |-> o.instr, mode |-> ModeStr(o.mode), op |-> CallStr(o.target),
@@ -88,6 +90,8 @@ Judge ==
             /\ Chk("record_for_parsed_item",
                    Cardinality({x \in DOMAIN C.records : C.records[x].kind = r.kind}) <= KindOps(r.kind),
                    [kind |-> r.kind, content |-> r.content])
+            \* the parsed module's own type () -> () is never an addition, whatever was "added" onto it
+            /\ Chk("record_for_parsed_item", ~(r.kind = "type" /\ r.content = "params=[] results=[]"), [kind |-> r.kind, content |-> r.content, tag |-> r.tag])
             /\ Chk("unknown_tag", r.tag = "" \/ \E i \in DOMAIN C.prog : C.prog[i].tag = r.tag, [kind |-> r.kind, tag |-> r.tag])
             \* every probe record, tagged or not (lowered copies are untagged), speaks the index space of the output
             /\ (r.kind \in {"probe", "fprobe"}) =>
